@@ -209,3 +209,8 @@ func init() {
 	prop("C20", "C01-R10")
 	prop("C09", "C01-R10")
 }
+
+func init() {
+	prop("C11", "C11-R6")
+	prop("C06", "C11-R6")
+}
